@@ -822,6 +822,7 @@ const D_PRE: usize = 2; // bytes taken over from a BufReader
 const D_CHUNK: usize = 3; // configured chunk size
 const D_END: usize = 4; // offset of the end of input / of the I/O error
 const D_READS: usize = 5; // number of refills made by one request
+const D_SLIDE: usize = 6; // bytes streamed by a sliding-window caller (`request(W); advance(r)`, W - r > chunk)
 
 pub fn gen_scale(rng: &mut Rng, thorough: bool) -> Case {
     let idx = SCALE_IDX.fetch_add(1, std::sync::atomic::Ordering::Relaxed);
@@ -834,6 +835,7 @@ pub fn gen_scale(rng: &mut Rng, thorough: bool) -> Case {
             ScaleDim::new(10, 20, 21, 16, 1).rest_big(),
             ScaleDim::new(10, 20, 22, 16, 1).rest_big(),
             ScaleDim::new(10, 20, 21, 11, 1).model_max((1 << 12) + 64, (1 << 13) + 64).rest_big(),
+            ScaleDim::new(10, 17, 20, 13, 1).rest_big(),
         ];
         scale_plan(&mut rng.fork(), &dims, thorough)
     });
@@ -1035,6 +1037,31 @@ fn gen_scale_case(rng: &mut Rng, dim: usize, size: usize) -> Case {
             }
             let n = rng.range(8, 16) as usize;
             probe(rng, &mut live, &mut case.sched, &mut ops, n, &sizes);
+            case.ops = ops;
+        }
+        D_SLIDE => {
+            // a caller that always keeps W bytes of look-ahead and consumes r of them per step; W - r is
+            // (k - 1) chunks and a bit, so every refill finds more than k - 1 chunks still unread.  The
+            // buffer (C10) has to stay within a few chunks + W however many bytes have gone through.
+            let c = *rng.pick(&[1usize, 16, 100, 512, 4096]);
+            case.chunk = c;
+            let k = *rng.pick(&[1usize, 2, 3, 5, 9]);
+            let r = (*rng.pick(&[1usize, c / 2 + 1, c, 3 * c, 64])).max(size / 3000 + 1);
+            let w = r + (k - 1) * c + *rng.pick(&[0usize, 1, c / 2, 7]);
+            let steps = size / r;
+            set_data(&mut case, size + w);
+            let n_ev = rng.below(30) as usize;
+            case.sched = short_events(rng, c, n_ev);
+            let mut ops = Vec::with_capacity(2 * steps + 2);
+            let mark_at = if rng.chance(1, 3) { rng.below(steps as u64 + 1) as usize } else { usize::MAX };
+            for i in 0..steps {
+                if i == mark_at {
+                    ops.push(Op::Sm);
+                }
+                ops.push(if rng.chance(1, 50) { Op::Ra(w - 1) } else { Op::Rq(w) });
+                ops.push(Op::Ad(r));
+            }
+            ops.push(Op::Rq(w));
             case.ops = ops;
         }
         D_BULK => {
